@@ -21,6 +21,10 @@ def run(res, only=None):
     expect = [f"{k}:{c}" for k in ("write", "from") for c in ("vec2", "vec3", "vec4", "quat", "mat2", "mat3", "mat4", "aff2", "aff3")] + \
              ["index:vec3", "index_mut:vec4", "col:mat3", "col_mut:mat4", "row:mat2", "minor:mat3", "minor:mat4"]
     core.replay_bin(res, "safe", b, cfgs, expect_ops=expect, tag="slices", sanitizer_prop="C18")
+    # mask types: test(i) / set(i, v) panic exactly for i >= N (the mask register machine of MC_C15, replayed here in C18's builds)
+    c = os.path.join(wd, "mask.out")
+    res.add_tlc(core.run_tlc("MC_C15", res.tier, c, workers=6))
+    core.replay_bin(res, "mask", c, [x for x in cfgs if not x.startswith("asan")], tag="mask", env_extra={"HX_PROP": "C18"}, expect_ops=["mask:badindex", "mask:set"])
     res.rule = ("no-panic: 839 public float functions of 20 types (table tools/gen_c18.py, shared by specification and harness) x every "
                 "argument slot x {all lanes, each single lane/entry} x 9 special values (0, -0, subnormal, 2^-80, 2^70, +-inf, NaN, MAX) plus "
                 "8 special pairs in every pair of slots, plus 6 (quick) / 96 (thorough) draws with EVERY slot filled from a seeded pseudo-random mix "
@@ -28,7 +32,7 @@ def run(res, only=None):
                 "x from/write x every length 0..N+4 as exactly-sized heap allocations of canary tokens (panic iff short, destination untouched "
                 "on panic, exactly N elements read/written); Index/IndexMut/col/col_mut/row/minor for indices 0..N+2 and usize::MAX; all of it "
                 "also in a nightly AddressSanitizer build (a sanitizer report is a violation).")
-    res.assumptions = ["memory safety is observed (ASan) on the replayed behaviours, not proved", "integer overflow / division panics are decided by C13, mask test/set by C15"]
+    res.assumptions = ["memory safety is observed (ASan) on the replayed behaviours, not proved", "integer overflow / division panics are decided by C13"]
 
 
 def replay(res, path, only=None):
